@@ -2718,7 +2718,21 @@ class Ev:
             if fp == "alloc::vec::Vec::<T>::new":
                 return ["vec", []]
             if f["k"] == "path" and f.get("dk", "").startswith("Ctor"):
-                return ctor(f["path"], *[self.sym(a, env, gen) for a in args])
+                cv = ctor(f["path"], *[self.sym(a, env, gen) for a in args])
+                if f["path"] == "core::option::Option::Some" and len(cv[2]) == 1:
+                    # Some(g(o?)) in a function returning Option is o.map(|x| g(x))
+                    holes = []
+                    def find_try(s_):
+                        if isinstance(s_, list):
+                            if len(s_) == 2 and s_[0] == "try_opt":
+                                holes.append(s_)
+                                return
+                            for y_ in s_:
+                                find_try(y_)
+                    find_try(cv[2][0])
+                    if len(holes) == 1:
+                        return canon_mcall("core::option::Option::<T>::map", [holes[0][1], ["lam", 1, subst(cv[2][0], holes[0], ["lp", 0])]])
+                return cv
             if f["k"] == "path" and f.get("dk") in ("Fn", "AssocFn"):
                 target = f.get("resolved") or f["path"]
                 vals = [self.sym(a, env, gen) for a in args]
@@ -2742,6 +2756,12 @@ class Ev:
                 for p, a in zip(clo.hir["params"], args):
                     self.bind_pat(p, self.sym(a, env, gen), env2)
                 return self.sym(clo.hir["body"], env2, clo.gen)
+            if f["k"] == "local" and isinstance(env.get(f["id"]), list) and env[f["id"]] and env[f["id"]][0] == "lam" and env[f["id"]][1] == len(args):
+                # a closure handed to a helper (as a symbolic lambda) applied to its arguments
+                body_ = env[f["id"]][2]
+                for i_, a_ in enumerate(args):
+                    body_ = subst(body_, ["lp", i_], self.sym(a_, env, gen))
+                return recanon(body_)
             if f["k"] == "local" and isinstance(env.get(f["id"]), FnVal):
                 fh = env[f["id"]].hir
                 vals = [self.sym(a, env, gen) for a in args]
@@ -2837,6 +2857,9 @@ class Ev:
             return self.sym(e["expr"], env2, gen)
         if k == "match":
             if is_try(e) is not None:
+                inner_ = strip(is_try(e))
+                if (inner_.get("ty") or "").startswith("core::option::Option<"):
+                    return ["try_opt", self.sym(inner_, env, gen)]
                 return ["opaque", "? in value position"]
             sc = self.sym(e["scrut"], env, gen)
             if len(e["arms"]) == 2:
@@ -2854,8 +2877,8 @@ class Ev:
                     # Some(x) => f(x), None => d   ==   scrut.map(|x| f(x)).unwrap_or(d)
                     env2 = dict(env)
                     env2[some_arm["pat"]["pats"][0]["id"]] = ["lp", 0]
-                    mapped = ["mcall", "core::option::Option::<T>::map", [sc, ["lam", 1, self.sym(some_arm["body"], env2, gen)]]]
-                    return ["mcall", "core::option::Option::<T>::unwrap_or", [mapped, self.sym(none_arm["body"], env, gen)]]
+                    mapped = canon_mcall("core::option::Option::<T>::map", [sc, ["lam", 1, self.sym(some_arm["body"], env2, gen)]])
+                    return canon_mcall("core::option::Option::<T>::unwrap_or", [mapped, self.sym(none_arm["body"], env, gen)])
             arms = []
             for a in e["arms"]:
                 env2 = dict(env)
@@ -2911,6 +2934,18 @@ def canon_mcall(p, args):
         f_ = args[1]
         if f_[0] == "lam" and f_[1] == 1 and f_[2] == ["op", "<", ["n", 0], ["len", ["lp", 0]]]:
             return ["nonempty", args[0][2][0]]   # Some(x) if x is not empty, else None
+    PHF = "phf::map::Map::<K, V>::"
+    if p == "core::option::Option::<T>::map" and len(args) == 2 and args[0][0] == "mcall" and args[0][1] == PHF + "get_entry" and args[1] == ["lam", 1, ["fld", ["lp", 0], "1"]]:
+        return ["mcall", PHF + "get", args[0][2]]   # phf: get(k) is get_entry(k).map(|e| e.1)
+    if p == ITER + "find_map" and len(args) == 2 and args[0][0] == "mcall" and args[0][1] == PHF + "entries" and args[1][0] == "lam" and args[1][1] == 1:
+        body = args[1][2]
+        val = ["fld", ["lp", 0], "1"]
+        if body[0] == "mcall" and body[1] == "core::bool::<impl bool>::then_some" and body[2][1] == val and not occurs(subst(body[2][0], val, ["x"]), ["lp", 0]):
+            # entries().find_map(|(_, v)| pred(v).then_some(v)) is values().find(pred)
+            return ["mcall", ITER + "find", [["mcall", PHF + "values", args[0][2]], ["lam", 1, subst(body[2][0], val, ["lp", 0])]]]
+    if p == "core::option::Option::<T>::unwrap_or" and len(args) == 2 and args[0][0] == "mcall" and args[0][1] == "core::option::Option::<T>::map" and len(args[0][2]) == 2 \
+            and args[0][2][1] == ["lam", 1, ["ctor", "core::result::Result::Ok", [["lp", 0]]]] and args[1][0] == "ctor" and args[1][1] == "core::result::Result::Err" and len(args[1][2]) == 1:
+        return ["mcall", "core::option::Option::<T>::ok_or", [args[0][2][0], args[1][2][0]]]   # match o { Some(x) => Ok(x), None => Err(e) }
     if p in (ITER + "copied", ITER + "cloned") and len(args) == 1:
         return args[0]  # element values are compared, not their addresses
     if p == ITER + "map" and len(args) == 2:
